@@ -320,7 +320,7 @@ func (b *Builder) Store() {
 // execute. It may write registers, store anywhere in bounds, load from any
 // address, divide by a zero register, jump with link or return.
 func (b *Builder) Hostile(endLabel string) {
-	k := rapid.IntRange(0, 11).Draw(b.t, "hostile")
+	k := rapid.IntRange(0, 13).Draw(b.t, "hostile")
 	memSize := int32(len(b.Init.Mem))
 	switch k {
 	case 0, 1, 2:
@@ -352,8 +352,12 @@ func (b *Builder) Hostile(endLabel string) {
 		b.emit(ref.Ins{Op: "jal", Rd: rapid.SampledFrom([]int{0, 1}).Draw(b.t, "link"), Label: endLabel})
 	case 10:
 		b.emit(ref.Ins{Op: "mul", Rd: b.dest("rd"), Rs1: b.reg("rs1"), Rs2: b.reg("rs2")})
-	default:
+	case 11:
 		b.emit(ref.Ins{Op: "beq", Rs1: b.reg("rs1"), Rs2: b.reg("rs2"), Label: endLabel})
+	case 12:
+		b.emit(ref.Ins{Op: "ret"})
+	default:
+		b.emit(ref.Ins{Op: "jalr", Rd: rapid.SampledFrom([]int{0, 1}).Draw(b.t, "link"), Rs1: b.reg("rs1"), Imm: 4 * rapid.Int32Range(0, 60).Draw(b.t, "imm")})
 	}
 }
 
@@ -513,6 +517,14 @@ func (b *Builder) Call() {
 		b.Alu()
 		return
 	}
+	switch rapid.IntRange(0, 3).Draw(b.t, "callkind") {
+	case 2:
+		b.SharedCall()
+		return
+	case 3:
+		b.EarlyRet()
+		return
+	}
 	f, after := b.label(), b.label()
 	b.emit(ref.Ins{Op: "jal", Rd: 1, Label: f})
 	b.emit(ref.Ins{Op: "j", Label: after})
@@ -575,6 +587,8 @@ func (b *Builder) Loop() {
 			b.Loop()
 		} else if rapid.IntRange(0, 7).Draw(b.t, "lbr") == 0 {
 			b.Branch()
+		} else if b.P.W.Jump > 0 && rapid.IntRange(0, 9).Draw(b.t, "ljmp") == 0 {
+			b.Jump() // executed on every iteration: the second time through the BTB
 		} else {
 			b.inLoopAtom()
 		}
@@ -1148,4 +1162,58 @@ func (b *Builder) EvictReread() {
 		b.emit(ref.Ins{Op: "add", Rd: RegSum, Rs1: RegSum, Rs2: data})
 	})
 	b.Meta["evictreread"]++
+}
+
+// SharedCall emits one function called from two sites, so that its returning
+// jalr has a different target each time (a stale branch-target-buffer entry
+// must be corrected): jal ra,F; atoms; jal ra,F; j After; F: body; jalr
+// zero,ra,0; After:
+func (b *Builder) SharedCall() {
+	if b.depth > 0 || b.noDest[1] {
+		b.Alu()
+		return
+	}
+	f, after := b.label(), b.label()
+	b.noDest[1] = true
+	b.emit(ref.Ins{Op: "jal", Rd: 1, Label: f})
+	b.depth++
+	for k := rapid.IntRange(0, 2).Draw(b.t, "between"); k > 0; k-- {
+		b.inLoopAtom()
+	}
+	b.emit(ref.Ins{Op: "jal", Rd: 1, Label: f})
+	b.emit(ref.Ins{Op: "j", Label: after})
+	b.place(f)
+	for k := rapid.IntRange(1, 3).Draw(b.t, "fnlen"); k > 0; k-- {
+		b.inLoopAtom()
+	}
+	b.depth--
+	delete(b.noDest, 1)
+	b.emit(ref.Ins{Op: "jalr", Rd: 0, Rs1: 1, Imm: 0})
+	b.place(after)
+	b.Meta["sharedcall"]++
+}
+
+// EarlyRet emits a conditional branch around a ret: when the branch is taken
+// the ret sits on the wrong path; when it is not, the program ends there.
+func (b *Builder) EarlyRet() {
+	st := b.State()
+	if st.Err != nil || b.depth > 0 {
+		b.Alu()
+		return
+	}
+	in := ref.Ins{Op: rapid.SampledFrom(condOps).Draw(b.t, "cond"), Rs1: b.reg("rs1"), Rs2: b.reg("rs2")}
+	if ref.Shape(in.Op) == ref.ShapeBr1 {
+		in.Rs2 = 0
+	}
+	// mostly skip the ret; sometimes end the program early
+	wantTaken := rapid.IntRange(0, 9).Draw(b.t, "skipret") != 0
+	if ref.Cond(in.Op, st.Reg[in.Rs1], st.Reg[in.Rs2]) != wantTaken {
+		in = negate(in)
+	}
+	l := b.label()
+	in.Label = l
+	b.emit(in)
+	b.emit(ref.Ins{Op: "ret"})
+	b.place(l)
+	b.Meta["earlyret"]++
 }
